@@ -97,6 +97,10 @@ pub fn generate(seed: u64, cases: usize, out: &mut Vec<String>) {
                         out.push(format!("sess qdele {} {}", k, r.below(ne)));
                     }
                 }
+                85..=87 => {
+                    out.push(format!("sess qmerge {} {}", k, r.below(3)));
+                    nn += 1;
+                }
                 _ => reads(&mut r, out, k, nn, ne),
             }
             // a read by some session after (almost) every step
@@ -221,6 +225,18 @@ pub fn run(st: &mut SessSt, args: &[&str]) -> String {
                         .map(|r| r.iter().map(crate::vals::tok).collect::<Vec<_>>().join("."))
                         .collect::<Vec<_>>()
                         .join(","),
+                    Err(e) => format!("query-error:{}", e),
+                }
+            }
+            ["qmerge", k, l] => {
+                let k = sess(st, k);
+                let before = st.db.node_count();
+                match st.sessions[&k].execute_cypher(&format!("MERGE (n:L{}) RETURN id(n)", l)) {
+                    Ok(res) => {
+                        // which node a merge matches is unspecified when several carry the label:
+                        // report only whether it matched, and the id when it created
+                        if st.db.node_count() > before { format!("created:{}", ids_of_rows(&res.rows)) } else { "matched".into() }
+                    }
                     Err(e) => format!("query-error:{}", e),
                 }
             }
